@@ -1327,17 +1327,15 @@ impl TextSelectionSet {
         if self.is_empty() {
             None
         } else {
-            if self.sorted {
-                self.data.get(self.data.len() - 1)
-            } else {
-                let mut rightmost: Option<&TextSelection> = None;
-                for item in self.iter() {
-                    if rightmost.is_none() || item.end > rightmost.unwrap().end {
-                        rightmost = Some(item);
-                    }
+            //(no shortcut for sorted sets: canonical order is by begin, so with nested or overlapping
+            //selections the last one is not necessarily the one with the highest end)
+            let mut rightmost: Option<&TextSelection> = None;
+            for item in self.iter() {
+                if rightmost.is_none() || item.end > rightmost.unwrap().end {
+                    rightmost = Some(item);
                 }
-                rightmost
             }
+            rightmost
         }
     }
 
